@@ -375,6 +375,12 @@ func (c *Ctx) callByContract(st *State, in ssa.Instruction, sp *FuncSpec, key st
 			c.Assumed["postcondition of "+short+" not usable in this arithmetic mode (skipped, weaker assumption): "+en.Src] = true
 		}
 	}
+	for _, en := range sp.Assumes {
+		if t, ok := c.tryEvalBool(env2, en.Expr); ok {
+			st.assume(t)
+			c.Assumed["assumed (unverified) postcondition of "+short+": "+en.Src] = true
+		}
+	}
 	if sp.Pure {
 		// a pure function is a mathematical function of its scalar arguments
 		var ts []*Term
@@ -1090,7 +1096,9 @@ var _ = big.NewInt
 func (c *Ctx) tryEvalBool(env *SpecEnv, e *SExpr) (t *Term, ok bool) {
 	defer func() {
 		if r := recover(); r != nil {
-			if ve, isV := r.(VerErr); isV && (strings.Contains(ve.Msg, "in math mode") || strings.Contains(ve.Msg, "not supported on sort Int")) {
+			// a callee clause that cannot be expressed in the caller's arithmetic / float mode is not assumed (sound:
+			// the caller knows less); the callee's own verification evaluates it in its own mode
+			if ve, isV := r.(VerErr); isV && (strings.Contains(ve.Msg, "in math mode") || strings.Contains(ve.Msg, "not supported on sort Int") || strings.Contains(ve.Msg, "needs float fp mode") || strings.HasPrefix(ve.Msg, "SPEC-ERROR: sort mismatch")) {
 				t, ok = nil, false
 				return
 			}
